@@ -510,6 +510,17 @@ func runCheck(c *CheckDef, tier string, workers int, only, solver string, seed i
 			ok, why := sym.CompareWitness(w, nres[i])
 			if !ok {
 				incon("witness mismatch (engine vs native) harness=%s draws=%v: %s", w.Harness, w.Draws, why)
+				// The engine's model and the native build disagree, so nothing the
+				// engine concluded on this path counts. But the witness is a concrete
+				// input, and if the real code fails one of the harness's assertions on
+				// it, that is a violation reproduced against the real code (found by
+				// replay, not by the solver — the replay file says so).
+				nr := nres[i]
+				if hc := cfgOf[w.Harness]; hc != nil && !hc.ExpectViolation && strings.HasPrefix(nr.Outcome, "assert:") && nr.Outcome != "assert:reachable" && len(res.Confirmed) < 3 {
+					v := &sym.Violation{Harness: w.Harness, Params: w.Params, Label: strings.TrimPrefix(nr.Outcome, "assert:"), Draws: w.Draws,
+						Site: "native replay of a path witness", Msg: "the engine predicted a normal end on these inputs (" + why + "); the native build fails the assertion"}
+					res.Confirmed = append(res.Confirmed, writeReplay(c, v, nr))
+				}
 				continue
 			}
 			res.WitnessesOK++
@@ -601,6 +612,13 @@ func runCheck(c *CheckDef, tier string, workers int, only, solver string, seed i
 		res.Inconclusive = keep
 	}
 	return res
+}
+
+// evidenceDir is /verif/evidence; runs against a seeded copy of the repository
+// (tools/seedcheck.sh) point it elsewhere so that the committed evidence keeps
+// describing the unchanged tree.
+func evidenceDir() string {
+	return envOr("VERIF_EVIDENCE_DIR", filepath.Join(verifDir, "evidence"))
 }
 
 func tail(s string, n int) string {
@@ -702,7 +720,7 @@ func cmdReplay(args []string) int {
 }
 
 func writeEvidence(c *CheckDef, tier string, seed int64, res *Result) {
-	os.MkdirAll(filepath.Join(verifDir, "evidence"), 0o755)
+	os.MkdirAll(evidenceDir(), 0o755)
 	samples := res.Samples
 	if len(samples) == 0 {
 		samples = []interface{}{map[string]interface{}{"note": "no witness replayed", "harnesses": res.Harnesses}}
@@ -755,5 +773,5 @@ func writeEvidence(c *CheckDef, tier string, seed int64, res *Result) {
 		"violations":  len(res.Confirmed),
 	}
 	data, _ := json.MarshalIndent(ev, "", " ")
-	os.WriteFile(filepath.Join(verifDir, "evidence", c.ID+".json"), data, 0o644)
+	os.WriteFile(filepath.Join(evidenceDir(), c.ID+".json"), data, 0o644)
 }
